@@ -512,6 +512,11 @@ func famFuzz(t *testing.T) {
 		{Namespace: "n2", Object: "x", Relation: "y", SubjectID: ptr("z")},
 		{Namespace: "n1", Object: "", Relation: "", SubjectID: ptr("")},
 	}
+	// more relationships on one object than half the name-lookup page, so that
+	// listings reference more ids than distinct ones
+	for i := 0; i < 70; i++ {
+		seed = append(seed, &ketoapi.RelationTuple{Namespace: "n1", Object: "o1", Relation: "r1", SubjectID: ptr(fmt.Sprintf("member-%d", i))})
+	}
 	e.setInitial(seed)
 	for _, r := range in.Reqs {
 		if r.I%sn != si {
